@@ -381,7 +381,7 @@ def job_history(job):
                           "missing": b is None, "is_init": init_doc is not None and b == init_doc,
                           "equals_step": [i for i, r in enumerate(refs) if b == r],
                           "load": obs, "main_text": text_of(b)[:300] if b is not None else None})
-        return {"steps": steps}
+        return {"steps": steps, "ref_docs": [text_of(r) for r in refs], "init_doc": text_of(init_doc)}
     finally:
         shutil.rmtree(tmp, ignore_errors=True)
 
@@ -407,7 +407,25 @@ def job_refdoc(job):
     return {"status": code, "raised": (ref or {}).get("raised"), "doc": text_of(doc)}
 
 
-JOBS = {"sweep": job_sweep, "history": job_history, "load": job_load, "refdoc": job_refdoc}
+def job_codec(job):
+    """The bytes an undisturbed save_cache writes for these entries, and what a new interpreter makes of that file."""
+    tmp = tempfile.mkdtemp(prefix="verif_c15_")
+    try:
+        main = os.path.join(tmp, "cache.json")
+        code, ref, doc = reference_doc(job["entries"])
+        if code != 0 or ref is None or ref.get("raised") or not isinstance(doc, bytes):
+            return {"error": f"reference save failed: status {code}, {ref}"}
+        with open(main, "wb") as f:
+            f.write(doc)
+        code, res = in_child(lambda: do_load(tmp, main))
+        if code != 0:
+            res = {"raised": f"loader died with status {code}: {res}", "warned": 0, "cache": None}
+        return {"doc_hex": doc.hex(), "load": res}
+    finally:
+        shutil.rmtree(tmp, ignore_errors=True)
+
+
+JOBS = {"sweep": job_sweep, "history": job_history, "load": job_load, "refdoc": job_refdoc, "codec": job_codec}
 
 
 # ----------------------------------------------------------------------------- real sessions
